@@ -493,7 +493,20 @@ fn gen_doc(rng: &mut Rng, big: bool) -> DocM {
   let mut guard = 0;
   while foreign.len() < want && guard < 50 {
     guard += 1;
-    let cand: (String, bool) = match rng.below(8) {
+    let cand: (String, bool) = match rng.below(9) {
+      // a valid IOTA DID that is not in normal form (upper-case hex digits / explicit default network): as a foreign
+      // DID it is data and stays as written
+      8 => {
+        let t = gen_tag(rng);
+        match rng.below(3) {
+          0 => (format!("did:iota:0x{}", t.to_uppercase()), true),
+          1 => (format!("did:iota:iota:0x{}", t), true),
+          _ => {
+            let n = gen_net(rng);
+            (if n == "iota" { format!("did:iota:iota:0x{}", t.to_uppercase()) } else { format!("did:iota:{}:0x{}", n, t.to_uppercase()) }, true)
+          }
+        }
+      }
       0 | 1 => (iota_str(&net, &gen_tag(rng)), true),
       2 => (iota_str(&gen_net(rng), &tag), true),
       3 => (iota_str(&gen_net(rng), &gen_tag(rng)), true),
